@@ -875,3 +875,60 @@ Section SizesEdit.
     | r0 :: _ => if needed then Some (replace_records A rid l [r0] [new]) else Some l
     end.
 End SizesEdit.
+
+(* ================================================================================================
+   10. update_source as a program of edit-method calls (what model.py / update.py do to the record list) *)
+Section Calls.
+  Variable A : Type.
+  Variable rname : A -> text.
+  Variable rid : A -> positive.
+  Variable rstr : A -> text.
+  Variable order : list text.
+
+  Inductive ecall :=
+  | EIns (r : A) (at_index : option nat)
+  | ERem (olds : list A)
+  | ERepl (olds news : list A)
+  | EAll (n : text) (news : list A).
+
+  Definition run_call (l : list A) (c : ecall) : option (list A) :=
+    match c with
+    | EIns r at_index => Some (insert_record A rname order l r at_index 0)
+    | ERem olds => Some (remove_records A rid l olds)
+    | ERepl olds news => Some (replace_records A rid l olds news)
+    | EAll n news => replace_all A rname order l n news
+    end.
+  Fixpoint run_calls (l : list A) (cs : list ecall) : option (list A) :=
+    match cs with
+    | [] => Some l
+    | c :: tl => match run_call l c with Some l' => run_calls l' tl | None => None end
+    end.
+
+  Definition in_kinds (K : list text) (r : A) : bool := existsb (text_eqb (rname r)) K.
+  (* what a reader of the control stream sees of a record *)
+  Definition view (r : A) : text * text := (rname r, rstr r).
+  (* the records whose kind is not in K: names and texts, in order *)
+  Definition fview (K : list text) (l : list A) : list (text * text) :=
+    map view (filter (fun r => negb (in_kinds K r)) l).
+
+  (* the call only involves records of the kinds K *)
+  Definition call_within (K : list text) (l : list A) (c : ecall) : bool :=
+    match c with
+    | EIns r _ => in_kinds K r
+    | ERem olds => forallb (fun x => negb (mem_id A rid x olds) || in_kinds K x) l
+    | ERepl olds news => forallb (fun x => negb (mem_id A rid x olds) || in_kinds K x) l && forallb (in_kinds K) news
+    | EAll n news => existsb (text_eqb n) K && forallb (name_is A rname n) news
+    end.
+  (* the call leaves the names and texts of all records as they are (e.g. replace_all with regenerated, textually identical records) *)
+  Definition call_neutral (l : list A) (c : ecall) : bool :=
+    match run_call l c with
+    | Some l' => list_eqb (fun a b => text_eqb (fst a) (fst b) && text_eqb (snd a) (snd b)) (map view l') (map view l)
+    | None => false
+    end.
+  Fixpoint calls_ok (K : list text) (l : list A) (cs : list ecall) : bool :=
+    match cs with
+    | [] => true
+    | c :: tl => (call_within K l c || call_neutral l c) &&
+                 match run_call l c with Some l' => calls_ok K l' tl | None => false end
+    end.
+End Calls.
